@@ -1,7 +1,7 @@
 (** C07: witnesses (by computation) of the inputs on which the faithful model — and the real
     code, see notes/C07.md and known_findings.d/C07.json — does NOT round-trip. *)
 From Coq Require Import List NArith ZArith Bool String Ascii.
-From Atlas Require Import Base.Bytes Lex.LexModel Lex.ClosedModel Lex.FmtModel Lex.QuoteModel.
+From Atlas Require Import Base.Bytes Lex.LexModel Lex.ClosedModel Lex.ClosedBeginModel Lex.FmtModel Lex.QuoteModel.
 Import ListNotations.
 
 Fixpoint bs (s : string) : bytes :=
@@ -119,3 +119,13 @@ Definition ex_tool_plan : plan :=
 Definition w_import_files : list (bytes * bytes) :=
   [(bs "V2__a.sql", bs ("CREATE TABLE ta (a int);" ++ nl));
    (bs "V10__b.sql", bs ("CREATE TABLE tb (a int);" ++ nl))].
+
+(** a MySQL trigger with a BEGIN ... END body (one block) and the plan that contains it *)
+Definition ex_trigger : begin_cmd :=
+  mkBegin (bs "CREATE TRIGGER `tr` BEFORE INSERT ON `t` FOR EACH ROW") 32 (bs "BEGIN") (bs " ")
+    [(bs "SET NEW.a = 1", bs " "); (bs "SET NEW.b = 'x;y'", bs " ")] (bs "END").
+Definition ex_trigger_plan : plan :=
+  mkPlan [] [] [] []
+    [mkChange (bs "CREATE TABLE `t` (`a` int, `b` text)") (bs "create t") [];
+     mkChange (render_begin ex_trigger) (bs "create trigger") [];
+     mkChange (bs "CREATE TABLE `u` (`a` int)") [] []].
